@@ -44,6 +44,12 @@ MEMPOOL_HARNESSES = [
      'obligations': ['REAL MemPool::removeAll with a VTB that is connected once or twice (resubmission of a connected payload): afterwards neither the per-type map nor the VBK relations hold it, and generatePopData never returns it again'],
      'rungs': {'quick': [{'bound': 'one VTB connected 1..2 times on VBK block 3 (pool state constructed directly), removeAll, generatePopData', 'timeout': 200}], 'thorough': [{'bound': 'as quick', 'timeout': 400}]}},
 ]
+PAYOUT_HARNESSES = [
+    {'name': 'h_payout', 'src': 'real/h_payout.cpp', 'entry': 'h_payout', 'repo_srcs': srcsets_real.REAL, 'covers': [1, 2, 3], 'jobs': 16,
+     'obligations': ['REAL getPopPayout on the real trees == independent specification of who is paid what: the block paid is the tip\'s ancestor at the payout delay; only endorsements whose block of proof is on the VBK best chain count (a losing VBK fork does not, neither for the score nor for the best publication height); weights by relative VBK height from the lookup table; difficulty = averaged score of the preceding blocks (minimum 1); amounts of the same miner accumulate; nobody else is paid'],
+     'rungs': {'quick': [{'bound': 'ALT chain of 5, payout delay 3, averaging interval 2, table {1,1,0.5,0.25,0.1}; VBK best chain of 6 blocks and a losing fork of 2; two ATVs for the paid block (containing block 2 choices, block of proof 4 choices incl. the fork, miner 2 choices each), optional endorsement of the preceding block; arithmetic kernels taken from h_reward', 'timeout': 600}],
+               'thorough': [{'bound': 'as quick', 'timeout': 900}]}},
+]
 RELOAD_HARNESSES = [
     {'name': 'h_reload', 'src': 'real/h_reload.cpp', 'entry': 'h_reload', 'repo_srcs': srcsets_real.REAL + ['src/pop/storage/adaptors/block_provider_impl.cpp'], 'covers': [1, 2, 3], 'jobs': 16,
      'obligations': ['REAL trees saved with saveTrees() through the library adaptors (BlockBatchImpl/BlockReaderImpl over InmemStorageImpl: every index is serialized and parsed back) and loaded into a fresh AltBlockTree with loadTrees(): the loaded instance has the same blocks, heights, status bits, payload ids, endorsements, reference counts, chain work, tips and best chains in the ALT, VBK and BTC trees',
